@@ -655,7 +655,9 @@ fn c03_got(c: &ServeCase, o: &ServeObs) -> Got {
             Got::Full
         }
         206 => {
-            if let Some(ct) = r.get("content-type").filter(|ct| ct.len() >= 10 && ct[..10].eq_ignore_ascii_case(b"multipart/")) {
+            // a multipart answer has no Content-Range of its own (an entity may itself be of a
+            // multipart type; a single-range 206 then carries that type *and* a Content-Range)
+            if let Some(ct) = r.get("content-type").filter(|ct| r.get("content-range").is_none() && ct.len() >= 20 && ct[..20].eq_ignore_ascii_case(b"multipart/byteranges")) {
                 let b = match multipart::boundary_of(ct) {
                     Some(b) => b,
                     None => return Got::Bad("multipart-without-boundary".into()),
@@ -981,6 +983,17 @@ impl Prop for C03 {
             if l % 3 == 1 {
                 ent.hdrs.push(("content-type".into(), b"text/plain".to_vec()));
             }
+            // every seventh request: one of the other entity header sets (repeated names, a
+            // stored Content-Encoding, a multipart type, a 4 KiB value)
+            let hh = hash64(&(value, l, 77u8));
+            if hh % 7 == 0 {
+                let sets = c06_hdr_sets();
+                ent.hdrs = sets[1 + (hh / 7) as usize % (sets.len() - 1)].clone();
+                if ent.hdrs.iter().map(|(k, v)| k.len() + v.len()).sum::<usize>() > 1000 && l < 100_000 {
+                    ent.hdrs.truncate(0);
+                    ent.hdrs.push(("content-encoding".into(), b"br".to_vec()));
+                }
+            }
             let mut c = ServeCase::get(ent);
             c.cap = 1 << 14;
             c.extra_polls = 0;
@@ -1150,7 +1163,10 @@ fn c04_judge(c: &ServeCase, o: &ServeObs, sink: &mut Sink) -> (Verdict, Option<u
         cond::Outcome::Continue => {
             // processing continues to range selection
             match c.hdr("range") {
-                Some(b"bytes=0-0") | Some(b"bytes=2-3") | Some(b"bytes=0-1, 4-5") if c.ent.len > 5 && c.hdr("if-range").is_none() => r.status == 206,
+                Some(b"bytes=0-0") | Some(b"bytes=2-3") if c.ent.len > 5 && c.hdr("if-range").is_none() => r.status == 206,
+                // two ranges on a 10-byte entity: not smaller than the entity as multipart, so the
+                // whole entity (200) is as good an answer as a 206
+                Some(b"bytes=0-1, 4-5") if c.hdr("if-range").is_none() => r.status == 200 || r.status == 206,
                 Some(b"bytes=100-") if c.ent.len <= 100 && c.hdr("if-range").is_none() => r.status == 416,
                 _ => r.status == 200 || r.status == 206 || r.status == 416,
             }
@@ -2269,6 +2285,18 @@ pub fn c13_value(name: &str, len: u64, rng: &mut Rng) -> Vec<u8> {
             let cut2 = if w.is_empty() { 0 } else { rng.below(w.len() as u64) as usize };
             v.extend_from_slice(&w[cut2..]);
         }
+        7 if rng.chance(1, 2) => {
+            // long values: runs of obs-text bytes, multi-byte UTF-8, quotes, digits - up to several KiB
+            let n = *rng.pick(&[60usize, 86, 100, 127, 128, 129, 255, 256, 257, 300, 1000, 4096, 9000]);
+            let units: [&[u8]; 8] = [b"\xe9", b"\xc3\xa9", b"\xe2\x82\xac", b"\xf0\x9f\x98\x80", b"\"", b"9", b"a\xe9", b", \"x\xff\""];
+            let leads: [&[u8]; 6] = [b"", b"a", b"\"", b"W/\"", b"bytes=", b"bytes=0-1,"];
+            let unit: &[u8] = *rng.pick(&units);
+            let lead: &[u8] = *rng.pick(&leads);
+            v = lead.to_vec();
+            while v.len() < n {
+                v.extend_from_slice(unit);
+            }
+        }
         7 => {
             // arbitrary bytes that HeaderValue accepts: HTAB, 0x20..0x7e, 0x80..0xff
             let n = rng.below(24) as usize;
@@ -2341,7 +2369,7 @@ impl Prop for C13 {
         "exploration"
     }
     fn rule(&self, _: &Ctx) -> String {
-        "seeded random requests: method from 14 standard/extension tokens; 0..4 of the six request headers, each 1..3 times, values = grammar-derived (C03-C05 generators), their byte mutations (drop/duplicate/insert from '\"-,=*W/;\\t +0-9', splices), boundary numbers (2^63-1 .. 10^30), arbitrary HeaderValue bytes incl. 0x80-0xFF; entity length {0,1,10,240,1000,2^32,2^63,2^64-1} x ETag/mtime presence; plus the deterministic product method x single hostile header, and Range values with 21 .. 5000 specs in seven layouts (disjoint, chained overlaps, descending, identical, nested, shuffled chains, pseudo-random overlaps). Non-trivial = distinct (method, headers, entity shape) with a header or a non-GET method, for which no panic, an allowed status and (non-GET/HEAD) 405+Allow+no entity read were checked".into()
+        "seeded random requests: method from 14 standard/extension tokens; 0..4 of the six request headers, each 1..3 times, values = grammar-derived (C03-C05 generators), their byte mutations (drop/duplicate/insert from '\"-,=*W/;\\t +0-9', splices), boundary numbers (2^63-1 .. 10^30), arbitrary HeaderValue bytes incl. 0x80-0xFF, values of 60 .. 9000 bytes made of obs-text / multi-byte UTF-8 / quotes; entity length {0,1,10,240,1000,2^32,2^63,2^64-1} x ETag/mtime presence; plus the deterministic product method x single hostile header, and Range values with 21 .. 5000 specs in seven layouts (disjoint, chained overlaps, descending, identical, nested, shuffled chains, pseudo-random overlaps). Non-trivial = distinct (method, headers, entity shape) with a header or a non-GET method, for which no panic, an allowed status and (non-GET/HEAD) 405+Allow+no entity read were checked".into()
     }
     fn n_blocks(&self, ctx: &Ctx) -> usize {
         if ctx.leg.slow() { 16 } else { 256 }
